@@ -538,6 +538,36 @@ func (wd *world) exec(w []string) string {
 			return "bad-op"
 		}
 		return wd.signOp(string(u), time.Unix(ts, 0))
+	case "docp", "signp":
+		want := 5
+		if w[0] == "signp" {
+			want = 7
+		}
+		if len(w) != want {
+			return "bad-op"
+		}
+		pre, ok1 := hk.UnHex(w[1])
+		seed, ok2 := decNat(w[2])
+		n, ok3 := decNat(w[3])
+		suf, ok4 := hk.UnHex(w[4])
+		if !ok1 || !ok2 || !ok3 || !ok4 || n > 8<<20 {
+			return "bad-op"
+		}
+		text := append(append(append([]byte(nil), pre...), padBytes(seed, n)...), suf...)
+		if w[0] == "docp" {
+			wd.doc = text
+			return fmt.Sprintf("ok %d", len(text))
+		}
+		_, ok5 := hk.UnHex(w[5])
+		ts, e := strconv.ParseInt(w[6], 10, 64)
+		if !ok5 || e != nil || strings.HasPrefix(w[6], "+") {
+			return "bad-op"
+		}
+		doc, err := wd.sign(string(text), time.Unix(ts, 0))
+		if err != nil {
+			return "err " + signErrClass(err)
+		}
+		return fmt.Sprintf("ok %d:%d", len(doc), fnv([]byte(doc)))
 	case "v":
 		if len(w) != 3 || !validFact(w[2]) {
 			return "bad-op"
@@ -560,4 +590,26 @@ func armoredDetachSignCfg(ent *openpgp.Entity, t string, cfg *packet.Config) (st
 	var buf bytes.Buffer
 	err := openpgp.ArmoredDetachSign(&buf, ent, strings.NewReader(t), cfg)
 	return buf.String(), err
+}
+
+// padBytes: generated content (kept out of the op lines), the same function as the driver's.
+func padBytes(seed, n int) []byte {
+	b := make([]byte, n)
+	for i := range b {
+		b[i] = byte(97 + (seed+7*i+i/26)%26)
+	}
+	return b
+}
+
+func decNat(s string) (int, bool) {
+	if s == "" || len(s) > 9 {
+		return 0, false
+	}
+	for _, c := range s {
+		if c < '0' || c > '9' {
+			return 0, false
+		}
+	}
+	n, err := strconv.Atoi(s)
+	return n, err == nil
 }
